@@ -109,10 +109,8 @@ class UserFields(object):
         all_fields = self.document.getElementsByType(UserFieldDecl)
         for f in all_fields:
             value_type = f.getAttribute(u'valuetype')
-            if value_type == u'string':
-                value = f.getAttribute(u'stringvalue')
-            else:
-                value = f.getAttribute(u'value')
+            ns, local = VALUE_TYPES.get(value_type, (OFFICENS, u'value'))
+            value = f.getAttrNS(ns, local)
             field_name = f.getAttribute(u'name')
 
             if field_names is None or field_name in field_names:
@@ -172,9 +170,7 @@ class UserFields(object):
             if field_name in data:
                 value_type = f.getAttribute(u'valuetype')
                 value = data.get(field_name)
-                if value_type == u'string':
-                    f.setAttribute(u'stringvalue', value)
-                else:
-                    f.setAttribute(u'value', value)
+                ns, local = VALUE_TYPES.get(value_type, (OFFICENS, u'value'))
+                f.setAttrNS(ns, local, value)
         self.savedoc()
 
